@@ -807,7 +807,7 @@ def run(ctx):
     ctx.assumptions += ['numpy Generator: deepcopy yields an equal independent stream; equal states give equal draws',
                         'float arithmetic on the generated dyadic pixel sizes, velocities and times is exact',
                         'FastFourierTransform / MatrixFourierTransform honour the zero of the grid they are built on (C01), used by the displaced-grid oracle']
-    n = ctx.scale(300, 10000)
+    n = ctx.scale(300, 8000)
     cases = [copy.deepcopy(c) for c in DIRECTED]
     big = ctx.tier == 'thorough'
     for i in range(n):
